@@ -172,7 +172,8 @@ def cases(tier):
     PM = {m: pipeline.patches(m) for m in ('sandwich', 'all', 'rect')}
     cfgs = [
         ('cf1d', (2, 2), 'none', True, (), False), ('cf1d', (2, 3), 'stored', False, (), False),
-        ('cf1d', (3, 2), 'none', False, (), True),
+        ('cf1d', (3, 2), 'none', False, (), True), ('cf1d', (2, 3), 'misdim', True, (), False),
+        ('cf2d', (2, 3), 'misdim', True, ((0, 1),), False),
         ('cf2d', (2, 2), 'stored', True, None, False), ('cf2d', (2, 2), 'none', True, None, False),
         ('shoc_simple', (1, 2), 'stored', False, None, False),
         ('shoc_standard', (1, 2), 'none', True, None, False), ('shoc_standard', (2, 2), 'none', True, ((1, 1), (0, 0)), False),
